@@ -42,11 +42,28 @@ Proof.
   pose proof (proj1 (Forall_forall _ _) P1 _ Hin) as Ht. split; [exact Ht|apply Line_spec; exact Ht].
 Qed.
 
+(** every option set (round 5): totality needs no side condition at all. *)
+Lemma scan_total_all o inp : scan o inp <> OutOfFuel /\ scan o inp <> Panic.
+Proof. split; [apply Scan_terminates|apply Scan_no_panic]. Qed.
+
 Lemma scan_terminates o inp : supported o = true -> scan o inp <> OutOfFuel.
-Proof. intros Hs. apply supported_spec in Hs. apply Scan_terminates; auto. Qed.
+Proof. intros _. apply Scan_terminates. Qed.
 
 Lemma scan_total o inp : supported o = true -> scan o inp <> OutOfFuel /\ scan o inp <> Panic.
+Proof. intros _. apply scan_total_all. Qed.
+
+Lemma scan_losslessG o inp ss :
+  scan o inp = Ok ss ->
+  exists hdr d0 rest, inp = hdr ++ rest /\ Header inp hdr d0 /\ LosslessG o d0 (zlen hdr) rest ss.
+Proof. apply Scan_losslessG. Qed.
+
+Lemma scan_positionsG o inp ss :
+  scan o inp = Ok ss ->
+  Forall (fun st => exists sh, 0 <= sh /\ (GoCommand o = false -> sh = 0) /\ TextAtShift inp sh st /\
+                    Line inp (Pos st) = Ok (line_of inp (Pos st))) ss.
 Proof.
-  intros Hs. split; [apply scan_terminates; exact Hs|].
-  apply supported_spec in Hs. apply Scan_no_panic; auto.
+  intros H. destruct (scan_losslessG _ _ _ H) as (hdr & d0 & rest & -> & _ & HL).
+  pose proof (losslessG_positions _ _ _ _ _ HL hdr eq_refl) as HF.
+  eapply Forall_impl; [|exact HF]. intros st (sh & H1 & H2 & H3 & H4).
+  exists sh. repeat split; auto. apply Line_bounds. exact H4.
 Qed.
